@@ -23,7 +23,7 @@ import histlib
 from histlib import Site, run_cmd, h60
 
 EXECS_QUICK, EXECS_THOROUGH = 5, 20
-PLAN_QUICK = {"new": 5, "enum": 3, "rest": 3, "map": 3}
+PLAN_QUICK = {"new": 4, "enum": 3, "rest": 2, "map": 3}
 PLAN_THOROUGH = {"new": 40, "enum": 20, "rest": 20, "map": 25}
 
 
@@ -61,6 +61,7 @@ def edit_spec(rng, spec, sel):
         if k < 0.8:
             it = rng.choice(own)
             it.ty = "float64" if it.ty != "float64" else "int"
+            it.goty = None
             it.ptr = False
             it.deflt = ""
             return s, "change the type of %s.%s" % (st.name, it.name)
@@ -328,7 +329,7 @@ def handlers(run, shoot):
     def alias_dup(entry):
         w = entry["witness"]
         seen = set()
-        for i in range(w.get("runs", 24)):
+        for i in range(min(w.get("runs", 24), 16)):
             s = site("ad", w["files"])
             r = sh(s, w["args"])
             if r["rc"] != 0:
